@@ -106,11 +106,24 @@ def merge(node, d, x, path=()):
 
 class RefAlloc:
     """granted set + pin -> owner map; a refused request never changes either"""
-    def __init__(self, table):
-        self.cmap = connector_map(table)
-        self.res = {(r["name"], r["number"]): r for r in table["resources"]}
+    def __init__(self, table, static=None):
+        self.cmap, self.res, self.pins = static if static is not None else self.prepare(table)
         self.granted = set()
         self.owner = {}
+
+    @staticmethod
+    def prepare(table):
+        """the immutable part (connector map, resources by key, resolved pins per resource); shareable between runs"""
+        cmap = connector_map(table)
+        res = {(r["name"], r["number"]): r for r in table["resources"]}
+        pins = {}
+        for k, r in res.items():
+            lst = []
+            for _path, leaf in leaves(r["node"]):
+                for half in leaf_pins(leaf, cmap).values():
+                    lst += half
+            pins[k] = lst
+        return cmap, res, pins
 
     def key(self):
         return (frozenset(self.granted), frozenset(self.owner.items()))
@@ -123,14 +136,8 @@ class RefAlloc:
         merged = merge(self.res[k]["node"], action.get("dir"), action.get("xdr"))
         illegal = any(m[4] == "illegal" for m in merged)
         either = any(m[4] == "either" for m in merged)
-        pins, dangling = [], False
-        for path, leaf in leaves(self.res[k]["node"]):
-            for lst in leaf_pins(leaf, self.cmap).values():
-                for p in lst:
-                    if p is None:
-                        dangling = True
-                    else:
-                        pins.append(p)
+        dangling = any(p is None for p in self.pins[k])
+        pins = [p for p in self.pins[k] if p is not None]
         if k in self.granted:
             return (REFUSE_ANY if illegal or dangling else REFUSE_RE), "already requested", merged
         clash = sorted(p for p in pins if p in self.owner)
@@ -148,10 +155,8 @@ class RefAlloc:
     def commit(self, action):
         k = (action["name"], action["number"])
         self.granted.add(k)
-        for path, leaf in leaves(self.res[k]["node"]):
-            for lst in leaf_pins(leaf, self.cmap).values():
-                for p in lst:
-                    self.owner[p] = k
+        for p in self.pins[k]:
+            self.owner[p] = k
 
 
 def verdict_ok(verdict, got_ok, got_is_resource_error):
